@@ -5,6 +5,8 @@ import (
 	"go/ast"
 	"go/types"
 	"strings"
+
+	"golang.org/x/tools/go/cfg"
 )
 
 func init() {
@@ -16,6 +18,7 @@ func init() {
 		Assume: []string{"penalty-dedup results themselves are not decided"},
 		Run: func(c *Ctx) {
 			c.Rule("bounded-iterator-owns-inner", "argument of NewBoundedSeriesIterator is a fresh local iterator", 3)
+			c.Rule("every-sample-appended", "the copy loop appends every yielded sample", 1)
 			c.Rule("lookahead-premise", "boundedSeriesIterator.Next consumes before testing the bound", 1)
 			pats := []string{"pkg/dedup", "pkg/query", "pkg/compact"}
 			if c.Tier == "thorough" {
@@ -99,6 +102,67 @@ func init() {
 				} else {
 					c.Bad("bounded-iterator-owns-inner", construct, p.Pos(s.Call.Pos()), "rewrapped-persistent-iterator:"+desc,
 						"NewBoundedSeriesIterator wraps "+exprString(arg)+", which outlives this call: the wrapper consumes one sample beyond maxt before stopping, so the next wrapper created over the same iterator starts one sample late (the first sample of every later output chunk is lost)")
+				}
+			}
+			// every sample the iterator yields is re-encoded: in toChunk's copy loop Append is executed on
+			// every path through the loop body (no conditional skip)
+			if tc := p.Func("pkg/dedup", "aggrChunkIterator", "toChunk"); tc == nil {
+				c.Incomplete("every-sample-appended", "pkg/dedup.(*aggrChunkIterator).toChunk", "", "function not found")
+			} else {
+				var loop *ast.ForStmt
+				ast.Inspect(tc.Body(), func(n ast.Node) bool {
+					if f, ok := n.(*ast.ForStmt); ok && f.Cond != nil && strings.Contains(exprString(f.Cond), ".Next()") && loop == nil {
+						loop = f
+					}
+					return true
+				})
+				if loop == nil {
+					c.Incomplete("every-sample-appended", "pkg/dedup.(*aggrChunkIterator).toChunk#copy-loop", p.Pos(tc.Decl.Pos()), "copy loop `for it.Next() != ValNone` not found")
+				} else {
+					isAppend := func(n ast.Node) bool {
+						found := false
+						inspectNoLit(n, func(x ast.Node) bool {
+							if call, ok := x.(*ast.CallExpr); ok {
+								if sel, ok := unparen(call.Fun).(*ast.SelectorExpr); ok && sel.Sel.Name == "Append" {
+									found = true
+								}
+							}
+							return true
+						})
+						return found
+					}
+					spec := FlowSpec[bool]{
+						Entry:    false,
+						Transfer: func(n ast.Node, s bool) bool { return s || isAppend(n) },
+						BlockEntry: func(b *cfg.Block, s bool) bool {
+							if b.Kind == cfg.KindForBody && b.Stmt == ast.Stmt(loop) {
+								return false
+							}
+							return s
+						},
+						Join:  func(a, b bool) bool { return a && b },
+						Equal: func(a, b bool) bool { return a == b },
+					}
+					r := runFlow(p, tc, spec)
+					ok := true
+					where := p.Pos(loop.Pos())
+					for _, b := range r.G.Blocks {
+						if !r.Seen[b] {
+							continue
+						}
+						for _, s := range b.Succs {
+							if s.Kind == cfg.KindForLoop && s.Stmt == ast.Stmt(loop) && blockInsideNode(b, loop.Body) {
+								if !r.BlockOut(b) {
+									ok = false
+									if len(b.Nodes) > 0 {
+										where = p.Pos(b.Nodes[len(b.Nodes)-1].Pos())
+									}
+								}
+							}
+						}
+					}
+					c.Check(ok, "every-sample-appended", "pkg/dedup.(*aggrChunkIterator).toChunk#copy-loop", where, "sample-skipped-in-copy-loop",
+						"an iteration of the copy loop can finish without appending the sample the iterator yielded: that aggregate sample is dropped from the output chunk while the count aggregate (encoded elsewhere) keeps it")
 				}
 			}
 			// premise
